@@ -58,6 +58,19 @@ def all_keys(alphabet, max_len):
     return keys
 
 
+def query_universe(alphabet, depth):
+    """Every key of length 0..depth+1; for wide alphabets the last two layers are
+    thinned out deterministically (extensions by the first two tokens only)."""
+    if len(alphabet) <= 4:
+        return all_keys(alphabet, depth + 1)
+    keys = all_keys(alphabet, min(depth, 2))
+    layer = [k for k in keys if len(k) == min(depth, 2)]
+    for _ in range(depth + 1 - min(depth, 2)):
+        layer = [k + (t,) for k in layer for t in alphabet[:2]]
+        keys.extend(layer)
+    return keys
+
+
 # -----------------------------------------------------------------------------
 # Generation: config + explicit event list from the seed
 # -----------------------------------------------------------------------------
@@ -68,10 +81,19 @@ def generate(seed, run, tier):
     frng = stream(NAME, seed, run, "faults")
 
     # swarm configuration
-    small = crng.random() < 0.45
+    shape = weighted_choice(crng, [("small", 40), ("mixed", 44), ("wide", 8), ("deep", 8)])
+    small = shape == "small"
     if small:
         alphabet = TOKEN_POOLS[0]
         depth = crng.choice([1, 2, 2, 3])
+    elif shape == "wide":
+        # many children per node (a node layout that changes with its fan-out)
+        alphabet = list("abcdefghijkl")[: crng.choice([8, 10, 12])]
+        depth = crng.choice([1, 2])
+    elif shape == "deep":
+        # long keys on two tokens (recursion, per-level bookkeeping)
+        alphabet = TOKEN_POOLS[0]
+        depth = crng.choice([5, 6])
     else:
         alphabet = crng.choice(TOKEN_POOLS)
         depth = crng.choice([2, 3, 3])
@@ -109,6 +131,8 @@ def generate(seed, run, tier):
     def draw_key(maxlen=depth):
         # bias towards short keys and towards keys related by prefix
         n = wrng.choice([0, 1, 1, 2, 2, 3, 3][: 2 + 2 * maxlen]) if maxlen else 0
+        if maxlen > 3 and wrng.random() < 0.5:
+            n = wrng.randint(3, maxlen)
         n = min(n, maxlen)
         return [wrng.choice(alphabet) for _ in range(n)]
 
@@ -259,7 +283,7 @@ class Run(object):
         self.models = [{} for _ in range(k)]
         self.t = 0
         self.iters = {}
-        self.universe = all_keys(config["alphabet"], config["depth"] + 1)
+        self.universe = query_universe(config["alphabet"], config["depth"])
         self.sweeps = 0
 
     @property
